@@ -40,6 +40,10 @@ int read_bin(const char *filename, Memory *memory, uint32_t start_address)
 
   fclose(in);
 
+  // An empty file would give a range from start_address to
+  // start_address - 1, which is the whole address space.
+  if (address == start_address) { return -1; }
+
   memory->low_address = start_address;
   memory->high_address = address - 1;
 
